@@ -418,6 +418,8 @@ def run_property(pid, tier, seed, units, quiet=False):
     # evidence of record is only written for /repo itself; scratch trees (self-test mutants) go elsewhere
     evdir = os.path.join(VERIF, 'evidence') if os.path.realpath(os.environ.get('VERIF_REPO', '/repo')) == '/repo' \
         else os.path.join(BUILD, 'evidence_scratch')
+    if os.environ.get('VERIF_EVIDENCE_DIR'):   # dev helper (seeded-change trials): keep the evidence of record untouched
+        evdir = os.path.join(VERIF, os.environ['VERIF_EVIDENCE_DIR'])
     os.makedirs(evdir, exist_ok=True)
     with open(os.path.join(evdir, pid + '.json'), 'w', encoding='utf-8') as fh:
         json.dump(ev, fh, indent=1)
